@@ -924,10 +924,14 @@ result_t ValueListDataField::writeSymbols(size_t offset, istringstream* input,
   const char* str = inputStr.c_str();
   char* strEnd = nullptr;  // fall back to raw value in input
   unsigned int value;
-  value = (unsigned int)strtoul(str, &strEnd, 10);
+  unsigned long unsignedValue = strtoul(str, &strEnd, 10);
   if (strEnd == nullptr || strEnd == str || (*strEnd != 0 && *strEnd != '.')) {
     return RESULT_ERR_INVALID_NUM;  // invalid value
   }
+  if (static_cast<unsigned long long>(unsignedValue) > MAX_VALUE) {
+    return RESULT_ERR_OUT_OF_RANGE;  // do not wrap around to a listed value
+  }
+  value = (unsigned int)unsignedValue;
   if (m_values.find(value) != m_values.end()) {
     return numType->writeRawValue(value, offset, m_length, output, usedLength);
   }
